@@ -1,48 +1,68 @@
 #!/usr/bin/env python3
 """Re-runs the registered checks against every confirmed seeded change (each applied in a scratch worktree of /repo's HEAD,
 removed afterwards) and writes /verif/seeded/INDEX.md: which check catches which change, and which are missed.
-usage: recheck_seeded.py [id-substring ...]"""
+usage: recheck_seeded.py [--all-props] [--jobs N] [id-substring ...]
+Without --all-props (or RECHECK_ALL=1) only the change's own property and the properties that reported it before are run."""
 import json, os, subprocess, sys, glob, tempfile, shutil
+from concurrent.futures import ThreadPoolExecutor
 
-ALL = ["C%02d" % i for i in range(1, 20)]
-sel = sys.argv[1:]
-rows = []
-for m in sorted(glob.glob('/verif/seeded/*/meta.json')):
+ALL = ["C%02d" % i for i in range(1, 21)]
+args = sys.argv[1:]
+allp = bool(os.environ.get('RECHECK_ALL')) or '--all-props' in args
+jobs = 4
+if '--jobs' in args:
+    jobs = int(args[args.index('--jobs') + 1]); del args[args.index('--jobs'):args.index('--jobs') + 2]
+sel = [a for a in args if not a.startswith('--')]
+head = subprocess.check_output("git -C /repo rev-parse --short HEAD", shell=True, text=True).strip()
+
+
+def one(m):
     d = json.load(open(m))
     sid = d['id']
-    if sel and not any(s in sid for s in sel):
-        continue
     patch = os.path.join(os.path.dirname(m), 'patch.diff')
     wt = tempfile.mkdtemp(prefix='recheck-', dir='/tmp'); os.rmdir(wt)
     try:
         subprocess.run("git -C /repo worktree add -q --detach %s HEAD" % wt, shell=True, check=True)
         p = subprocess.run("git apply --3way %s 2>&1 || patch -p1 -F3 < %s" % (patch, patch), shell=True, cwd=wt, stdout=subprocess.PIPE, stderr=subprocess.STDOUT, text=True)
         if p.returncode != 0:
-            rows.append((sid, d['property'], 'PATCH-DOES-NOT-APPLY', [], ''))
-            continue
+            return (sid, d['property'], 'PATCH-DOES-NOT-APPLY', [], '')
         os.makedirs(wt + "/_v", exist_ok=True)
         shutil.copy("/verif/known_findings.json", wt + "/_v/known_findings.json")
-        props = [d['property']] + [x for x in (d.get('detected_by') or []) if x != d['property']]
-        # also the properties that share rules
+        props = [d['property']] + [x for x in (d.get('detected_by') or []) if x != d['property'] and 'exit2' not in x]
         by, first = [], ''
-        for pp in ALL if os.environ.get('RECHECK_ALL') else props:
-            q = subprocess.run("DFS_NO_EVIDENCE=1 /verif/bin/dfscheck -property %s -repo %s -verif %s/_v" % (pp, wt, wt), shell=True, cwd='/verif', stdout=subprocess.PIPE, stderr=subprocess.STDOUT, text=True)
+        def chk(pp):
+            vd = "%s/_v/%s" % (wt, pp)
+            os.makedirs(vd, exist_ok=True)
+            shutil.copy("/verif/known_findings.json", vd)
+            q = subprocess.run("DFS_NO_EVIDENCE=1 /verif/bin/dfscheck -property %s -repo %s -verif %s" % (pp, wt, vd), shell=True, cwd='/verif', stdout=subprocess.PIPE, stderr=subprocess.STDOUT, text=True)
             v = [l for l in q.stdout.splitlines() if "] violated in" in l or "] undecided in" in l]
-            if q.returncode == 1:
+            return pp, q.returncode, v
+        with ThreadPoolExecutor(max_workers=4) as ex:
+            res = list(ex.map(chk, ALL if allp else props))
+        # own property first
+        res.sort(key=lambda r: (r[0] != d['property'], r[0]))
+        for pp, rc, v in res:
+            if rc == 1:
                 by.append(pp)
                 if not first and v:
                     first = v[0].replace(wt + '/', '')
-            elif q.returncode == 2:
+            elif rc == 2:
                 by.append(pp + '(exit2)')
         d['detected_by_check'] = bool([b for b in by if 'exit2' not in b]); d['detected_by'] = by
         d['check_reports'] = [first] if first else []
-        d['rechecked_at_repo_head'] = subprocess.check_output("git -C /repo rev-parse --short HEAD", shell=True, text=True).strip()
+        d['rechecked_at_repo_head'] = head
         json.dump(d, open(m, 'w'), indent=1)
-        rows.append((sid, d['property'], 'detected' if d['detected_by_check'] else 'MISSED', by, first))
+        row = (sid, d['property'], 'detected' if d['detected_by_check'] else 'MISSED', by, first)
+        print(row[:4], flush=True)
+        return row
     finally:
         subprocess.run("git -C /repo worktree remove --force %s" % wt, shell=True, stdout=subprocess.DEVNULL, stderr=subprocess.DEVNULL)
         shutil.rmtree(wt, ignore_errors=True)
-    print(rows[-1][:4], flush=True)
+
+
+metas = [m for m in sorted(glob.glob('/verif/seeded/*/meta.json')) if not sel or any(s in m for s in sel)]
+with ThreadPoolExecutor(max_workers=jobs) as ex:
+    rows = list(ex.map(one, metas))
 if not sel:
     with open('/verif/seeded/INDEX.md', 'w') as f:
         f.write("# Confirmed seeded changes and the checks that catch them\n\nEach change compiles, keeps the 252 pinned tests passing and has a demonstration that passes on the clean tree and fails with the change (see meta.json in each directory). Regenerate with tools/recheck_seeded.py.\n\n| change | property | outcome | reported by | first report |\n|---|---|---|---|---|\n")
